@@ -5,6 +5,23 @@
 //! model: it states what the property text says a keyword / a `parse` pattern matches.
 use crate::enc;
 use crate::rng::Rng;
+use crate::Ctx;
+use serde_json::json;
+use std::collections::HashMap;
+
+/// full `info` only for the first passes of a family on this shard (keeps the result pipe small)
+pub struct Passes(HashMap<String, usize>);
+impl Passes {
+    pub fn new() -> Self {
+        Passes(HashMap::new())
+    }
+    pub fn pass(&mut self, ctx: &mut Ctx, family: &str, key: &str, info: impl FnOnce() -> serde_json::Value) {
+        let n = self.0.entry(family.to_string()).or_insert(0);
+        *n += 1;
+        let i = if *n <= 2 { info() } else { json!({}) };
+        ctx.case(family, key, "pass", i);
+    }
+}
 
 #[derive(Clone, Copy, PartialEq, Eq, Debug)]
 pub enum Kind {
@@ -224,7 +241,6 @@ pub fn answer_strings(ans: &str) -> Option<Vec<String>> {
 /// first words of a SKIP reason, so that counts aggregate
 pub fn skip_why(ans: &str) -> String {
     let w = ans.strip_prefix("SKIP").unwrap_or(ans).trim();
-    let w = w.split(':').next().unwrap_or("");
     w.split(' ').take(6).collect::<Vec<_>>().join(" ")
 }
 
@@ -431,9 +447,20 @@ pub fn gen_line(r: &mut Rng, kind: Kind, text: &str) -> String {
         out.push_str(&junk(r, 5));
     }
     let gap = |r: &mut Rng| if r.chance(45) { String::new() } else { junk(r, 4).replace('\n', "") };
-    match r.below(100) {
-        // in order
-        0..=47 => {
+    let single = segs.len() == 1;
+    // modes that need two pieces fall back to a damaged / partial spelling for a single piece
+    let mode = match r.below(100) {
+        0..=37 => 0,                              // in order
+        38..=55 => 1,                             // in order, one piece damaged
+        56..=63 => if single { 1 } else { 2 },    // out of order
+        64..=70 => if single { 7 } else { 3 },    // overlapping
+        71..=76 => 4,                             // the text itself, stars and all
+        77..=86 => 5,                             // junk only
+        87..=93 => if single { 1 } else { 6 },    // newline inside a gap
+        _ => 8,                                   // twice
+    };
+    match mode {
+        0 => {
             for (i, s) in segs.iter().enumerate() {
                 if i > 0 {
                     out.push_str(&gap(r));
@@ -441,8 +468,7 @@ pub fn gen_line(r: &mut Rng, kind: Kind, text: &str) -> String {
                 out.push_str(&variant(r, s, true));
             }
         }
-        // in order, one piece damaged
-        48..=56 => {
+        1 => {
             let bad = r.below(segs.len());
             for (i, s) in segs.iter().enumerate() {
                 if i > 0 {
@@ -455,11 +481,10 @@ pub fn gen_line(r: &mut Rng, kind: Kind, text: &str) -> String {
                 }
             }
         }
-        // out of order
-        57..=64 => {
+        2 => {
             let mut idx: Vec<usize> = (0..segs.len()).collect();
             r.shuffle(&mut idx);
-            if segs.len() > 1 && idx.windows(2).all(|w| w[0] < w[1]) {
+            if idx.windows(2).all(|w| w[0] < w[1]) {
                 idx.reverse();
             }
             for (n, i) in idx.iter().enumerate() {
@@ -470,7 +495,7 @@ pub fn gen_line(r: &mut Rng, kind: Kind, text: &str) -> String {
             }
         }
         // overlapping: the next piece starts inside the previous one
-        65..=71 => {
+        3 => {
             for (i, s) in segs.iter().enumerate() {
                 let v = variant(r, s, false);
                 if i > 0 {
@@ -480,13 +505,10 @@ pub fn gen_line(r: &mut Rng, kind: Kind, text: &str) -> String {
                 }
             }
         }
-        // the keyword text itself, stars and all
-        72..=79 => out.push_str(&variant(r, &normalize_kw(text), false)),
-        // junk only
-        80..=86 => out.push_str(&junk(r, 12)),
-        // in order with a newline inside a gap
-        87..=93 => {
-            let at = if segs.len() > 1 { 1 + r.below(segs.len() - 1) } else { 0 };
+        4 => out.push_str(&variant(r, &normalize_kw(text), false)),
+        5 => out.push_str(&junk(r, 12)),
+        6 => {
+            let at = 1 + r.below(segs.len() - 1);
             for (i, s) in segs.iter().enumerate() {
                 if i > 0 {
                     out.push_str(&gap(r));
@@ -496,6 +518,14 @@ pub fn gen_line(r: &mut Rng, kind: Kind, text: &str) -> String {
                     }
                 }
                 out.push_str(&variant(r, s, false));
+            }
+        }
+        // partial: the piece without its last (or first) character
+        7 => {
+            let v: Vec<char> = variant(r, &segs[0], false).chars().collect();
+            if !v.is_empty() {
+                let cut: String = if r.chance(50) { v[..v.len() - 1].iter().collect() } else { v[1..].iter().collect() };
+                out.push_str(&cut);
             }
         }
         // twice: a damaged occurrence first, a good one later (or the other way round)
@@ -548,7 +578,7 @@ mod tests {
         assert!(!kw_spec(Kind::Wild, "a*", "xa\n"));
         assert!(kw_spec(Kind::Wild, "a*", "a\nxa"));
         assert_eq!(kw_caps(Kind::Wild, "a*b*", "xaabb").unwrap().1, vec!["a".to_string(), "b".to_string()]);
-        assert_eq!(kw_caps(Kind::Wild, "*a**", "xay").unwrap().1, vec!["".to_string(), "".to_string(), "y".to_string()]);
+        assert_eq!(kw_caps(Kind::Wild, "*a**", "xay").unwrap().1, vec!["x".to_string(), "".to_string(), "y".to_string()]);
         assert!(kw_spec(Kind::Wild, "\\\"", "say \"x\""));
         assert_eq!(quote("a\\\"b", '"'), "\"a\\\\\\\"b\"");
     }
